@@ -850,6 +850,27 @@ def cmp_guard_edges(body, op, lhs_pred, rhs_pred, symmetric=True):
     return res
 
 
+def resolve_place(body, pl, depth=6):
+    """Expand a place whose base local is a single-definition reference/copy of
+    another place: `_7 = &(*_1).state; (*_7)` -> [1, '*', '.state:..', '*']."""
+    pl = list(pl)
+    while depth > 0:
+        depth -= 1
+        base = pl[0]
+        ds = body.defs.get(base, ())
+        if len(ds) != 1 or ds[0][2] != 'assign' or base <= body.argc:
+            break
+        rv = ds[0][3][1]
+        if rv.get('op') == 'ref':
+            src = rv['pl']
+        elif rv.get('op') == 'use' and op_place(rv['a'][0]):
+            src = op_place(rv['a'][0])
+        else:
+            break
+        pl = list(src) + pl[1:]
+    return pl
+
+
 def enum_local_edges(facts, body, local_pred, adt, variants):
     """Edges of switches on discr(X) for locals X satisfying local_pred of enum
     `adt`, taken when X is one of `variants`."""
@@ -870,7 +891,7 @@ def enum_local_edges(facts, body, local_pred, adt, variants):
             if kind != 'assign':
                 continue
             rv = payload[1]
-            if rv.get('op') == 'discr' and rv.get('adt') == adt and local_pred(rv['pl']):
+            if rv.get('op') == 'discr' and rv.get('adt') == adt and (local_pred(rv['pl']) or local_pred(resolve_place(body, rv['pl']))):
                 listed = set()
                 for v, b in t['tg']:
                     listed.add(v)
@@ -879,7 +900,7 @@ def enum_local_edges(facts, body, local_pred, adt, variants):
                 if rest and rest <= want:
                     edges.add((i, t['else']))
                 elif rest & want:
-                    raise Unrecognised(f"{body.fn} bb{i}: else-arm mixes wanted and unwanted variants of {adt}")
+                    pass  # the else arm mixes wanted and unwanted variants: it belongs to neither set
                 else:
                     other.add((i, t['else']))
     return edges, other
